@@ -179,6 +179,21 @@ def _patch_z3_timing():
             _SOLVER["n"] += 1
     z3.Solver.check = check
     _patched = True
+    # Never "short-circuit" calls to contract-carrying functions (CrossHair's own
+    # hash() patch has a contract): replacing the call by a fresh symbolic result
+    # is an over-approximation that (a) makes a Python-level __hash__ called from
+    # C return a non-int (spurious TypeError) and (b) adds a sibling path per
+    # call site.  Always executing the real body is the precise semantics.
+    import crosshair.core as cc
+    orig_cs = cc.consider_shortcircuit
+
+    def consider_shortcircuit(fn, sig, bound, subconditions, allow_interpretation):
+        if allow_interpretation:
+            return None
+        return orig_cs(fn, sig, bound, subconditions, allow_interpretation)
+    cc.consider_shortcircuit = consider_shortcircuit
+    from pv.chfix import apply_pytato_stubs
+    apply_pytato_stubs()
 
 
 _hcount = [0]
